@@ -557,12 +557,18 @@ pub fn run(case: &Value) -> Value {
     let trace = verif_trace::take();
     let mut history = Vec::new();
     let mut next_ev = 0;
+    let mut ev_missing = 0u64;
     for (kind, a, b, t) in trace {
         match kind {
             "ev" => {
-                let e = received.get(next_ev).cloned().unwrap_or(json!(["MISSING"]));
+                // a send point that was reached without an event arriving in the stream (an event announced but not
+                // sent) leaves no record: what is missing shows in the counts the monitors check
+                if let Some(e) = received.get(next_ev).cloned() {
+                    history.push(json!(["ev", e, t]));
+                } else {
+                    ev_missing += 1;
+                }
                 next_ev += 1;
-                history.push(json!(["ev", e, t]));
             }
             "top" => history.push(json!(["top", a, t])),
             "feat" => history.push(json!(["feat", t])),
@@ -579,6 +585,7 @@ pub fn run(case: &Value) -> Value {
         "history": history,
         "events": received.len(),
         "events_traced": next_ev,
+        "events_missing": ev_missing,
         "terminated": done,
         "rounds": rounds,
         "hook_calls_during_run": during,
